@@ -458,6 +458,20 @@ func (ex *exprTr) call(x *ast.CallExpr) Val {
 		}
 		return vc.detApply(dn, vs, rt)
 	}
+	// call of a value whose type is a named function type declared `purefunc`
+	if tv, known := ex.info.Types[x.Fun]; known && tv.IsValue() && tv.Type != nil {
+		ft := tv.Type
+		if key, ok := vc.pureFuncKey(ft); ok {
+			fv := ex.tr(x.Fun)
+			var vs []Val
+			sig := ft.Underlying().(*types.Signature)
+			for i, a := range x.Args {
+				v := ex.tr(a)
+				vs = append(vs, Val{t: ex.coerce(v, sig.Params().At(i).Type()), typ: sig.Params().At(i).Type()})
+			}
+			return vc.pureFieldApply(key, fv, vs, rt)
+		}
+	}
 	// call through a function-valued struct field declared `purefield`
 	if sel, ok := x.Fun.(*ast.SelectorExpr); ok {
 		if fo, ok := ex.info.Uses[sel.Sel].(*types.Var); ok && fo.IsField() {
@@ -598,6 +612,20 @@ func (ex *exprTr) call(x *ast.CallExpr) Val {
 		return Val{t: app("select", vc.heapGet(ex.st, builderAccHeap, builderAccSort), vc.ptrTerm(a)), typ: rt}
 	case "verif_bsingle":
 		return Val{t: vc.bsingle(ex.tr(x.Args[0]).t), typ: rt}
+	case "verif_written":
+		return ex.writtenBuiltin(ex.tr(x.Args[0]), rt)
+	case "verif_utf8rune":
+		r, _ := vc.utf8Decode(ex.tr(x.Args[0]).t, "true")
+		return Val{t: r, typ: rt}
+	case "verif_utf8size":
+		_, w := vc.utf8Decode(ex.tr(x.Args[0]).t, "true")
+		return Val{t: w, typ: rt}
+	case "verif_xxh64":
+		vc.bytesOn()
+		f := vc.declareFun("bytes.xxh64", []string{bytesSort}, "Int")
+		r := app(f, ex.tr(x.Args[0]).t)
+		vc.addAssume("true", and(app("<=", "0", r), app("<=", r, "18446744073709551615")))
+		return Val{t: r, typ: rt}
 	case "verif_bcat", "verif_bxor", "verif_btake":
 		vc.bytesOn()
 		return Val{t: app("bytes."+name[7:], ex.tr(x.Args[0]).t, ex.tr(x.Args[1]).t), typ: rt}
